@@ -19,7 +19,7 @@ Definition check (c : c07case) : N :=
   | RaceCase progs raced same =>
     let ids := map (map N.to_nat) progs in
     if negb (forallb (forallb known) progs) then 1
-    else if well_guarded lib_guard (map prog_of_ids ids)
+    else if well_guarded lib_guard (map prog_of_ids ids) && well_ordered lib_rank (map prog_of_ids ids)
          then (if raced || negb same then 2 else 0)
          else 1
   end.
